@@ -5,10 +5,12 @@
    .ignore / .gitignore / .hgignore files is returned -- or lies in or below a pruned directory, and a directory is pruned only
    because it is a VCS metadata directory, unrelated to the explicit watches, or ignored by the filter the walk had built by
    then); termination within the fuel from_origin provides; all for every file system listing with absolute, distinct paths.
-   PARTIAL: independence from the listing order is checked by the correspondence run (two listing orders + the real crate),
-   not proved, see DESIGN.md.
+   EXACTNESS and ORDER INDEPENDENCE (repaired code): the result is exactly the explicit / origin-level files plus the ignore files of
+   every OPEN reachable directory (it and every directory above it is related to the watches, is no VCS metadata directory and,
+   unless it is the origin, is not ignored by the filter made of the base files and the ignore files of the directories above
+   it); hence any two listings of the same file system give the same set of files.
    Proofs: Discover/DiscoverProofs.v, Discover/DiscoverPrune.v, Discover/DiscoverComplete.v *)
-From Coq Require Import List NArith String Ascii Bool.
+From Coq Require Import List NArith String Ascii Bool Permutation.
 From WX Require Import Base.Bytes Glob.Glob Glob.Gitignore Ignore.IgnoreFilter Gen.Origins_gen Discover.Discover Discover.DiscoverProofs Discover.DiscoverPrune Discover.DiscoverComplete Ignore.IgnoreEquiv.
 Import ListNotations.
 Open Scope string_scope.
@@ -92,7 +94,7 @@ Theorem C14_every_reachable_directory_visited_or_pruned : forall gm content fs o
     (exists p, is_under p d = true /\
        (vcs_dir p = true \/ watch_related watches p = false \/
         exists t0, reach gm content true true true fs origin watches (fo_init content fs origin explicit excludes) t0 /\
-                   check_dir gm true (t_filter t0) p = false /\ p <> origin /\
+                   In p (t_visit t0) /\ check_dir gm true (t_filter t0) p = false /\ p <> origin /\
                    forall a, rdir fs origin a -> is_under a p = true -> a <> p -> Done fs t0 a)).
 Proof. exact from_origin_complete_repaired. Qed.
 Print Assumptions C14_every_reachable_directory_visited_or_pruned.
@@ -133,3 +135,30 @@ Theorem C14_origin_pruned_refuted :
   = ["/o/.git/info/exclude|/o|Git"; "/o/.gitignore|/o|Git"; "/o/src/.ignore|/o/src|-"].
 Proof. exact origin_pruned_refuted. Qed.
 Print Assumptions C14_origin_pruned_refuted.
+
+(* exactness: what from_origin returns, as a set, in terms that do not mention the walk *)
+Theorem C14_result_exact : forall gm content fs origin watches explicit excludes,
+  (forall e, In e fs -> absolute (fst e)) -> absolute origin -> NoDup (map fst fs) -> fs_get fs origin = Some KDir ->
+  forall f, In f (from_origin gm content true true true fs origin watches explicit excludes) <->
+            In f (fo_files fs origin explicit excludes) \/
+            exists d, rdir fs origin d /\ Open gm content fs origin watches (fo_base content fs origin explicit excludes) d /\ In f (dirfiles fs d).
+Proof. exact from_origin_exact. Qed.
+Print Assumptions C14_result_exact.
+
+(* the result does not depend on the directory listing order *)
+Theorem C14_listing_order_independent : forall gm content fs fs' origin watches explicit excludes,
+  (forall e, In e fs -> absolute (fst e)) -> NoDup (map fst fs) -> absolute origin -> fs_get fs origin = Some KDir ->
+  Permutation fs fs' ->
+  forall f, In f (from_origin gm content true true true fs origin watches explicit excludes) <->
+            In f (from_origin gm content true true true fs' origin watches explicit excludes).
+Proof. exact from_origin_permutation. Qed.
+Print Assumptions C14_listing_order_independent.
+
+(* Open is decidable data, not a hidden universal: on the example tree /o/tests is open, /o/test (ignored by /o/.gitignore) and
+   everything below it is not *)
+Example C14_open_example :
+  let content := fun p : string => if String.eqb p "/o/.gitignore" then ["test/"] else ["x"] in
+  let Bf := fo_base content ex_fs "/o" [] None in
+  forallb (pass gm_glob content ex_fs "/o" [] Bf) ("/o/tests" :: anc "/o" "/o/tests") = true /\
+  forallb (pass gm_glob content ex_fs "/o" [] Bf) ("/o/test/sub" :: anc "/o" "/o/test/sub") = false.
+Proof. vm_compute. split; reflexivity. Qed.
